@@ -162,6 +162,10 @@ def run_sign(case, agg):
     with fresh_dir("c04") as d:
         inp, outp = os.path.join(d, "in.suit"), os.path.join(d, "out.suit")
         open(inp, "wb").write(b)
+        if case["i"] % 5 == 0:
+            outp = inp                      # signing in place: --output-envelope names the input file
+        else:
+            impl.prefill(outp)              # the output path already exists with longer content
         try:
             if seed_slice(case["i"], 397):
                 rc, so, se = impl.cli(["sign", "single-level", "--input-envelope", inp, "--output-envelope", outp, "--key-name", kname,
